@@ -62,6 +62,7 @@ type FnExec struct {
 	funcTags   []string
 	nObl       int
 	abstracted []string
+	name       string
 }
 
 type modEntry struct {
